@@ -434,7 +434,6 @@ func mutate(t *rapid.T, b []byte, label string) ([]byte, string) {
 // forgedClaims are the hostile decoded-length claims of an s2/snappy block (DESIGN.md: above the cap, yet cheap).
 var forgedClaims = []uint64{1 << 28, 1<<28 + 1<<27}
 
-var decodeLenExcluded bool
 
 type frameCase struct {
 	code    uint64
@@ -452,7 +451,7 @@ func (m *msgSource) frame() *frameCase {
 	t := m.t
 	f := &frameCase{}
 	// forged length prefix: a 9..14 byte frame claiming a huge decoded size
-	if !decodeLenExcluded && rare(t, "forgedClaim", 100) {
+	if rare(t, "forgedClaim", 100) {
 		claim := forgedClaims[pick(t, "claim", len(forgedClaims))]
 		var v [10]byte
 		n := binary.PutUvarint(v[:], claim)
@@ -587,7 +586,6 @@ func TestFrames(t *testing.T) {
 			if !o.panicked && len(f.frame) <= frameCap && o.alloc > allocCap {
 				evid.Count("alloc.decode_over_cap")
 				if kf.Report(t, "C12", keyDecodeLen, "protocol.Decode allocated %d MiB for a frame of %d bytes (cap for any frame up to 8 MiB: %d MiB): the decoded length is taken from the block header and allocated before any data is checked\ninput: %s", o.alloc>>20, len(f.frame), allocCap>>20, in()) {
-					decodeLenExcluded = true // listed as known: the forged-length shape is excluded from here on
 					continue
 				}
 			}
